@@ -170,3 +170,11 @@ reg("C21", "exploration", "TLA+ law RoundTripOk (KnxIpFrame.tla) evaluated by TL
     "each session: length equals the announced total, total = 6 + calculated_length, nothing left over, equal body, identical octets the second time.",
     "Trusted: TLC; equality is the library's own. Error ConnectResponses (8 octets on the wire) cannot be built by the library and are covered by C20 only.",
     "DESIGN.md section 5 C21")
+
+reg("C22", "model_checking", "TLA+ reference TcpStream (delivery for a stream of good / framed-but-malformed / unreadable frames) with the buffering parser model-checked over every chunking; TLC judges every recorded run of the real TCPTransport / SecureSession / UDPTransport",
+    "The buffering parser automaton is model-checked over every chunking of three streams (delivery equals the reference, monotone); the real TCPTransport is fed "
+    "every chunking of nine short streams (4096 per stream in quick, all in thorough) and random chunkings of streams of up to 50 frames, the real SecureSession "
+    "(before its handshake) streams with wrappers, and the real UDPTransport the datagrams of the C20 plan; TLC judges each run: no exception leaves the callback, "
+    "every well-formed frame is delivered once in stream order, framed-but-malformed frames are skipped, nothing is delivered twice.",
+    "Trusted: TLC. Frame identity travels in the channel / session id octet of the generated frames.",
+    "DESIGN.md section 5 C22")
